@@ -202,7 +202,7 @@ def gen_reject(rng, chk):
 
 def run(chk, R, tier, seed):
     rng = random.Random("C13-%d" % seed)
-    n_grid = 2 if tier == "quick" else 40
+    n_grid = 5 if tier == "quick" else 40
     rounds = 1 if tier == "quick" else 8
     for mode in RM.MODES:
         for rep in ("D", "F"):
